@@ -348,6 +348,40 @@ pub fn es_j(tier: Tier) -> Family {
     Family::list(out)
 }
 
+/// ES-S: a run of L = 248..253 high bytes (the two-codeword Base256 length starts at 250), 0..2
+/// ASCII characters the field could absorb, and a digit tail of every length that brings the total
+/// to the capacities 280 / 368 and their neighbours: the split "Base256 field of 249 + rest" against
+/// "field of 250..255 with a second length codeword".
+pub fn es_s(tier: Tier) -> Family {
+    let mut out = Vec::new();
+    let ls: Vec<usize> = tier.pick((248..=253).collect(), (246..=257).collect());
+    for l in ls {
+        for e in 0..=2usize {
+            for ch in [b'a', b'A'] {
+                if e == 0 && ch == b'A' {
+                    continue;
+                }
+                for cap in tier.pick(vec![280usize], vec![280usize, 368]) {
+                    // codewords without the digits: latch + 1..2 length + l + e
+                    let m0 = cap.saturating_sub(2 + l + e);
+                    for m in m0.saturating_sub(3)..=m0 + 1 {
+                        for odd in [0usize, 1] {
+                            let mut v = vec![0x80u8; l];
+                            for q in 0..l {
+                                v[q] = 0x80 | (q as u8).wrapping_mul(29);
+                            }
+                            v.extend(std::iter::repeat(ch).take(e));
+                            v.extend(std::iter::repeat(b'7').take(2 * m + odd));
+                            out.push(v);
+                        }
+                    }
+                }
+            }
+        }
+    }
+    Family::list(out)
+}
+
 struct SPart {
     part: Part,
     strong: bool,
@@ -477,6 +511,7 @@ fn parts(tier: Tier) -> Vec<SPart> {
     // ES-L: three runs of base-set characters of different classes (lower case, upper case, digits,
     // EDIFACT punctuation) with every combination of run lengths 1..=13: look-ahead rules of the
     // planner that depend on the length of the coming run (e.g. "7 digits ahead") live here
+    v.push(SPart { part: Part { name: "ES-S Base256 field around 250 bytes + absorbable characters + digit tail at a capacity", family: es_s(tier), cfgs: gen::cfgs(&[ALL_MODES], &[d], &on, &off) }, strong: true });
     v.push(SPart { part: Part { name: "ES-L three runs, lengths 1..13", family: es_l(13), cfgs: gen::cfgs(&[ALL_MODES], &[d], &on, &off) }, strong: true });
     // ES-K: every symbol as a single-symbol list at its capacity boundaries (strong for symbols of
     // up to 204 codewords, weak oracle beyond)
